@@ -8,7 +8,7 @@ over arbitrary histories and input forms is not decided.
 """
 import ast
 
-from ..astutil import call_simple_name, dotted, exc_name, guard_chain, names_in, returns_of, short
+from ..astutil import call_simple_name, dotted, exc_name, guard_chain, names_in, pm, pmall, returns_of, short
 from ..cfg import cfg_of, node_calls
 from ..forward import flow_of
 from ..loader import AnalysisError, FunctionInfo, body_walk, norm, walk_no_nested
@@ -130,19 +130,24 @@ def rule_filename(ctx):
     rel = fi.module.relpath
     fl = flow_of(fi)
     # filename under 'modified' in obj derives from _timestamp2filename(obj['modified']); dir = type/id ; else id in type dir
-    asg = [n for n in body_walk(fi.node) if isinstance(n, ast.Assign) and norm(n.targets[0]) == "filename"]
-    ver = [a for a in asg if any(pol and "'modified' in" in norm(t) for t, pol, _ in guard_chain(a))]
-    unv = [a for a in asg if any((not pol) and "'modified' in" in norm(t) for t, pol, _ in guard_chain(a))]
-    ok = len(ver) == 1 and len(unv) == 1 and norm(ver[0].value) == "_timestamp2filename(%s['modified'])" % fi.params[1] \
-        and norm(unv[0].value) == "%s['id']" % fi.params[1]
+    t = norm(fi.node)
+    o = fi.params[1]
+    # file_path = os.path.join(<dir>, <name> + '.json'): find the two locals, then their definitions per branch
+    bfp = pm(t, "$fp = os.path.join($dir, $name + '.json')")
+    asg = [n for n in body_walk(fi.node) if isinstance(n, ast.Assign) and bfp and norm(n.targets[0]) == bfp["name"]]
+    ver = [a for a in asg if any(pol and "'modified' in" in norm(t_) for t_, pol, _ in guard_chain(a))]
+    unv = [a for a in asg if any((not pol) and "'modified' in" in norm(t_) for t_, pol, _ in guard_chain(a))]
+    ok = len(ver) == 1 and len(unv) == 1 and norm(ver[0].value) == "_timestamp2filename(%s['modified'])" % o \
+        and norm(unv[0].value) == "%s['id']" % o
     run.check(ok, R, key(rel, fi.qualname, "name-from-modified"), "the file name of a versioned object is not derived from its "
               "modified time (or of an unversioned one from its id)", file=rel, line=fi.node.lineno, function=fi.qualname,
               expected="modified in obj: _timestamp2filename(obj['modified']) else obj['id']", found=[short(a) for a in asg])
-    dirs = [n for n in body_walk(fi.node) if isinstance(n, ast.Assign) and norm(n.targets[0]) == "obj_dir"]
-    okd = any("os.path.join(type_dir, %s['id'])" % fi.params[1] == norm(d.value) for d in dirs) and any(norm(d.value) == "type_dir" for d in dirs)
-    t = norm(fi.node)
-    okd = okd and "type_dir = os.path.join(self._stix_dir, %s['type'])" % fi.params[1] in t and \
-        "file_path = os.path.join(obj_dir, filename + '.json')" in t
+    dirs = [n for n in body_walk(fi.node) if isinstance(n, ast.Assign) and bfp and norm(n.targets[0]) == bfp["dir"]]
+    btd = pm(t, "$td = os.path.join(self._stix_dir, %s['type'])" % o)
+    okd = btd is not None and any("os.path.join(%s, %s['id'])" % (btd["td"], o) == norm(d.value) for d in dirs) and any(
+        norm(d.value) == btd["td"] for d in dirs)
+    # the path opened is the one built here
+    okd = okd and bfp is not None
     run.check(okd, R, key(rel, fi.qualname, "directory-layout"), "directory layout <type>/<id>/<modified>.json | <type>/<id>.json changed",
               file=rel, line=fi.node.lineno, function=fi.qualname, expected="versioned: type/id/ ; unversioned: type/", found=[short(d) for d in dirs])
     # _timestamp2filename normalises strings through parse_into_datetime then format_datetime
@@ -202,7 +207,8 @@ def rule_newest(ctx):
               file=fam.module.relpath, line=fam.node.lineno, function=fam.qualname,
               expected="if latest is None or obj['modified'] > latest['modified']: latest = obj", found=found)
     g = prog.cls(MEM + "::MemorySource").methods["get"]
-    run.check("mapped_value.latest_version" in norm(g.node), R, key(g.module.relpath, g.qualname, "returns-latest"),
+    run.check(pmall(norm(g.node), "$m = self._data.get(%s)" % g.params[1], "$o = $m.latest_version") is not None, R,
+              key(g.module.relpath, g.qualname, "returns-latest"),
               "lookup by id does not return the family's latest version", file=g.module.relpath, line=g.node.lineno,
               function=g.qualname, expected="stix_obj = mapped_value.latest_version", found="changed")
     # filesystem: sorted(key=modified)[-1]
@@ -238,14 +244,16 @@ def rule_all_versions_kept(ctx):
     # _add routes versioned objects to the family and unversioned ones to the id slot
     ad = prog.func(MEM + "::_add")
     t = norm(ad.node)
-    ok = "if 'modified' in stix_obj" in t and "obj_family.add(stix_obj)" in t and "store._data[stix_obj['id']] = obj_family" in t \
-        and "obj_family = store._data[stix_obj['id']]" in t
+    st_ = ad.params[0]
+    ok = pmall(t, "if 'modified' in $o:", "$f = %s._data[$o['id']]" % st_, "$f = _ObjectFamily()", "%s._data[$o['id']] = $f" % st_,
+               "$f.add($o)") is not None
     run.check(ok, R, key(ad.module.relpath, ad.qualname, "family-per-id"), "objects are not collected in one family per id",
               file=ad.module.relpath, line=ad.node.lineno, function=ad.qualname,
               expected="existing family reused, new family created and stored, obj added", found="changed")
     # bundles and lists are unpacked recursively
     rec = [c for c in body_walk(ad.node) if isinstance(c, ast.Call) and call_simple_name(c) == "_add"]
-    okb = len(rec) == 2 and "isinstance(stix_data, list)" in t and "stix_data['type'] == 'bundle'" in t and "stix_data.get('objects', [])" in t
+    sd = ad.params[1]
+    okb = len(rec) == 2 and "isinstance(%s, list)" % sd in t and "%s['type'] == 'bundle'" % sd in t and "%s.get('objects', [])" % sd in t
     run.check(okb, R, key(ad.module.relpath, ad.qualname, "unpacks-lists-and-bundles"), "lists / bundles are not unpacked member by member",
               file=ad.module.relpath, line=ad.node.lineno, function=ad.qualname, expected="recursive _add for list items and bundle objects",
               found=[short(c) for c in rec])
@@ -258,8 +266,9 @@ def rule_all_versions_kept(ctx):
     # filesystem: every version file of every matching id directory is read
     sv = prog.func(FS + "::_search_versioned")
     t = norm(sv.node)
-    ok = "_get_matching_dir_entries(id_path, _AUTHSET_ANY, stat.S_ISREG, '.json')" in t and "for version_file in version_files" in t \
-        and "for id_dir in id_dirs" in t
+    ok = pmall(t, "$ids = _get_matching_dir_entries(%s, %s, stat.S_ISDIR)" % (sv.params[1], sv.params[2]), "for $d in $ids:",
+               "$ip = os.path.join(%s, $d)" % sv.params[1], "$vf = _get_matching_dir_entries($ip, _AUTHSET_ANY, stat.S_ISREG, '.json')",
+               "for $f in $vf:") is not None
     run.check(ok, R, key(sv.module.relpath, sv.qualname, "reads-every-version-file"), "not every version file is read",
               file=sv.module.relpath, line=sv.node.lineno, function=sv.qualname,
               expected="all *.json files of each id directory", found="changed")
@@ -271,18 +280,24 @@ def rule_save_load(ctx):
     R = "C11.save-load"
     sv = prog.cls(MEM + "::MemorySink").methods["save_to_file"]
     t = norm(sv.node)
-    ok = "if any(('spec_version' in x for x in all_objs))" in t and "v21.Bundle(all_objs, allow_custom=self.allow_custom)" in t \
-        and "v20.Bundle(all_objs, allow_custom=self.allow_custom)" in t
+    ok = pmall(t, "if any(('spec_version' in $x for $x in $all))", "v21.Bundle($all, allow_custom=self.allow_custom)",
+               "v20.Bundle($all, allow_custom=self.allow_custom)") is not None
     run.check(ok, R, key(sv.module.relpath, sv.qualname, "bundle-class-by-content"),
               "the exported bundle is not of the class matching the content / does not carry the sink's allow_custom",
               file=sv.module.relpath, line=sv.node.lineno, function=sv.qualname,
               expected="v21.Bundle if any object has spec_version else v20.Bundle, allow_custom=self.allow_custom", found="changed")
-    okw = "bundle.serialize(pretty=True, encoding=encoding, ensure_ascii=False)" in t and "f.write(bundle)" in t
+    okw = False
+    bb = pmall(t, "$b = v21.Bundle(", "$s = $b.serialize(", "$f.write($s)")
+    if bb:
+        for c in body_walk(sv.node):
+            if isinstance(c, ast.Call) and norm(c.func) == "%s.serialize" % bb["b"]:
+                kws = {k.arg: norm(k.value) for k in c.keywords}
+                okw = kws == {"pretty": "True", "encoding": "encoding", "ensure_ascii": "False"}
     run.check(okw, R, key(sv.module.relpath, sv.qualname, "writes-serialisation"), "what is written is not the bundle's serialisation",
               file=sv.module.relpath, line=sv.node.lineno, function=sv.qualname, expected="f.write(bundle.serialize(...))", found="changed")
     ld = prog.cls(MEM + "::MemorySource").methods["load_from_file"]
     t = norm(ld.node)
-    okl = "stix_data = json.load(f)" in t and "_add(self, stix_data, self.allow_custom, version)" in t
+    okl = pmall(t, "$d = json.load($f)", "_add(self, $d, self.allow_custom, version)") is not None
     run.check(okl, R, key(ld.module.relpath, ld.qualname, "feeds-_add"), "load_from_file does not feed the file content to _add with "
               "the source's allow_custom and the requested version", file=ld.module.relpath, line=ld.node.lineno, function=ld.qualname,
               expected="_add(self, json.load(f), self.allow_custom, version)", found="changed")
